@@ -99,8 +99,8 @@ Definition blade_indices (A : alg) : list (list nat) :=
 
 (* Algebra.matrix_basis.  The Python takes the combinations branch when no basis was given and the blades branch for
    a custom basis.  The model algebra does not record which constructor built it; the blades branch is used for every
-   algebra, and for the default basis the two branches produce the same list of matrices (Theory/Matrix.v:
-   [matrix_basis_default_branch], by computation for d <= 4; compared with the implementation on every run). *)
+   algebra, and for the default basis the two branches produce the same list of matrices (Theory/MatrixBranch.v:
+   [matrix_basis_default_branch_all], every dimension; compared with the implementation on every run). *)
 Definition matrix_basis (A : alg) : list mat := matrix_rep_blades (a_sig A) (blade_indices A).
 Definition matrix_basis_default_branch (A : alg) : list mat := matrix_rep (a_sig A).
 
